@@ -4,3 +4,4 @@ SPECIFICATION Spec
 INVARIANT Lemmas
 CONSTRAINT Export
 CHECK_DEADLOCK FALSE
+VIEW View
